@@ -585,6 +585,8 @@ impl World {
             match cutkind.as_str() {
                 "eof" => rctl.push(REvt::Eof),
                 "stall" => {}
+                // a protocol error instead of an end of stream: a complete command frame with an empty name, then silence
+                "junk" => rctl.push(REvt::Data(vec![0x04, 0x01, 0x00])),
                 k => rctl.push(REvt::Err(io_kind(k))),
             }
         }
